@@ -269,8 +269,10 @@ def shrink_item(it):
         endws = it[4] if len(it) > 4 else ""
         if content is not None:
             yield content
-        if endws:
+        if endws and not (content is None and endws == " /" and at and at[-1][2] == ""):
             yield [["H", tag, at, content, ""]]
+        if content is None and tag.lower() != "br":
+            yield [["H", "br", at, content, endws]]
         if tag != tag.lower():
             yield [["H", tag.lower(), at, content, endws]]
         if tag.lower() != "span" and content is not None:
@@ -525,7 +527,7 @@ def content_tags(items, prefix=""):
             if tag != tag.lower():
                 t.add(prefix + "H.tag-uppercase")
             if len(it) > 4 and it[4]:
-                t.add(prefix + "H.blank-in-end-tag")
+                t.add(prefix + ("H.blank-in-end-tag" if it[3] is not None else "H.void-slash"))
             if it[3] is None:
                 t.add(prefix + "H.void")
             t |= {prefix + x for x in attr_tags(it[2], "H.attrs")}
